@@ -39,15 +39,17 @@ def new_run():
                 "strip(S) turns strict='filter' into strict=True"])
 
 
+def null_duplicate_error(e):
+    """>= 2 nulls in a unique field: the docs do not say whether nulls are
+    duplicates of each other."""
+    # pandas drops null failure cases from the report ([]), polars lists them
+    return e.reason in ("SERIES_CONTAINS_DUPLICATES", "DUPLICATES") and e.cells is not None \
+        and all(all(v is None for v in c) for c in e.cells)
+
+
 def null_duplicates_only(out2):
-    """Rejected only because >= 2 nulls sit in a unique field: the docs do not
-    say whether nulls are duplicates of each other -> not judged."""
-    def only_nulls(cells):
-        # pandas drops null failure cases from the report ([]), polars lists them
-        return cells is not None and all(all(v is None for v in c) for c in cells)
-    return bool(out2.errors) and all(
-        e.reason in ("SERIES_CONTAINS_DUPLICATES", "DUPLICATES") and only_nulls(e.cells)
-        for e in out2.errors)
+    """Rejected only because >= 2 nulls sit in a unique field -> not judged."""
+    return bool(out2.errors) and all(null_duplicate_error(e) for e in out2.errors)
 
 
 def labels_identify_rows(data):
@@ -112,9 +114,10 @@ def classify(spec, table, backend, kind, out2, diff=None, res=None):
     if backend == "pandas" and kind == "result-rejected-by-stripped-schema" and spec["kind"] == "frame" \
             and out2 is not None and out2.errors:
         asked = {fs["name"] for fs in spec["columns"] if fs.get("col_drop")}
-        if asked and all(e.column in asked and e.reason in ("DATAFRAME_CHECK", "SERIES_CONTAINS_NULLS",
-                                                           "SERIES_CONTAINS_DUPLICATES")
-                         for e in out2.errors):
+        judged = [e for e in out2.errors if not null_duplicate_error(e)]    # the rest is an undecided region
+        if asked and judged and all(e.column in asked and e.reason in ("DATAFRAME_CHECK", "SERIES_CONTAINS_NULLS",
+                                                                      "SERIES_CONTAINS_DUPLICATES")
+                                    for e in judged):
             # every cell the stripped schema rejects (check, nullability, uniqueness)
             # lies in a column that asked for drop_invalid_rows itself
             return MECH_COLUMN_LEVEL
